@@ -43,6 +43,85 @@ def showCOut : COut → String
   | .closed => "err closed"
   | .panic => "panic"
 
+
+/-! ### arm tags (coverage only) -/
+
+/-- the comparison `first < start` and the u32 bound of `first + len - 1`, at their boundaries -/
+def validateArms (start chanId : Nat) (chunks : List (Option CI)) : List String :=
+  match chunks with
+  | [] => ["v-empty"]
+  | none :: _ => ["v-first-unreadable"]
+  | some c0 :: rest =>
+    let cmp := if c0.seq + 1 < start then "v-first-lt-start" else if c0.seq + 1 = start then "v-first-eq-start-minus1"
+      else if c0.seq = start then "v-first-eq-start" else "v-first-gt-start"
+    if c0.seq < start then [cmp]
+    else
+      let lastN := c0.seq + rest.length
+      let ov := if lastN + 1 < 4294967296 then "v-last-lt-max" else if lastN = 4294967295 then "v-last-eq-max"
+        else if lastN = 4294967296 then "v-last-eq-max-plus1" else "v-last-gt-max"
+      let n := if rest.isEmpty then "v-one-chunk" else "v-many-chunks"
+      let ch := if chanId = 0 then "v-chan-unset" else "v-chan-set"
+      let res := match validateChunks start chanId chunks with
+        | .ok _ => "v-ok"
+        | .err e => s!"v-err-{e}"
+        | .panic => "v-panic"
+      -- which chunk failed which check
+      let rec firstBad (i : Nat) : List (Option CI) → String
+        | [] => "v-all-pass"
+        | none :: _ => if i = 0 then "v-first-unreadable" else "v-later-unreadable"
+        | some c :: r =>
+          if chanId ≠ 0 ∧ c.chan ≠ chanId then (if i = 0 then "v-chan-mismatch-first" else "v-chan-mismatch-later")
+          else if c.seq ≠ c0.seq + i then
+            (if c.seq + 1 = c0.seq + i then "v-seq-one-below" else if c.seq = c0.seq + i + 1 then "v-seq-one-above" else "v-seq-off")
+          else if i ≠ 0 ∧ c.req ≠ c0.req then "v-req-mismatch"
+          else firstBad (i + 1) r
+      [cmp, ov, n, ch, res] ++ (if lastN < 4294967296 then [firstBad 0 chunks] else [])
+
+def cliArms (s : Cli) (ci : CI) (f : Fin) : List String :=
+  if s.closed then ["c-closed"] else
+  match lookupReq ci.req s.states with
+  | none => ["c-unknown-request"]
+  | some chunks =>
+    let lim := if s.maxPending = 0 then "c-nolimit"
+      else if chunks.length + 2 < s.maxPending + 1 then "c-len-lt-limit"
+      else if chunks.length + 1 = s.maxPending then "c-len-eq-limit"
+      else if chunks.length = s.maxPending then "c-len-eq-limit-plus1"
+      else "c-len-gt-limit"
+    match f with
+    | .intermediate => ["c-intermediate", lim]
+    | .abort => [if chunks.isEmpty then "c-abort-empty" else "c-abort-nonempty"]
+    | .final =>
+      let all := chunks ++ [⟨ci, f⟩]
+      let base := [if chunks.isEmpty then "c-final-single" else "c-final-multi",
+                   if s.last = 4294967295 then "c-mark-at-max" else "c-mark-below-max",
+                   if s.chanId = 0 then "c-chan-unset" else "c-chan-set"]
+      match mergeChunks true all with
+      | none => base ++ ["c-merge-panic"]
+      | some ret =>
+        let m := if all.length = 1 then "c-merge-single"
+          else if ret.length = all.length then (if sortBySeq all = all then "c-merge-in-order" else "c-merge-reordered")
+          else "c-merge-skipped"
+        let w := if all.length > 1 ∧ ret.any (fun c => c.ci.seq = 4294967295) then ["c-merge-wrap"] else []
+        let r := match recvWith true s.last s.chanId (ret.map fun c => some c.ci) with
+          | .ok _ => if flagsOk ret then "c-completed" else "c-flags-bad"
+          | .err e => s!"c-recv-{e}"
+          | .panic => "c-recv-panic"
+        base ++ [m] ++ w ++ [r]
+
+def mwArms (s : MW) (nid : Nat) (msg : Bytes) : List String :=
+  let body := msg.length - nid
+  let a := if s.maxMsg = 0 then "mw-nolimit" else if body + 1 = s.maxMsg then "mw-eq-maxmsg-minus1"
+    else if body = s.maxMsg then "mw-eq-maxmsg" else if body = s.maxMsg + 1 then "mw-eq-maxmsg-plus1"
+    else if body < s.maxMsg then "mw-lt-maxmsg" else "mw-gt-maxmsg"
+  let sz := 24 + msg.length
+  let b := if sz + 1 = s.bufLen + 1024 then "mw-chunk-eq-scratch-minus1" else if sz = s.bufLen + 1024 then "mw-chunk-eq-scratch"
+    else if sz = s.bufLen + 1025 then "mw-chunk-eq-scratch-plus1" else if sz < s.bufLen + 1024 then "mw-chunk-lt-scratch"
+    else "mw-chunk-gt-scratch"
+  let g := if s.out.length + sz > s.bufLen then "mw-buffer-grows" else "mw-buffer-fits"
+  [a, b, g, if s.maxChunks = 0 then "mw-maxchunks-0" else "mw-maxchunks-set"]
+
+def tag (l : List String) : String := " @@ " ++ ",".intercalate l
+
 def dstep (st : DState) (toks : List String) : DState × String :=
   match toks with
   | ["reset", "cli", mp, ch] =>
@@ -62,10 +141,11 @@ def dstep (st : DState) (toks : List String) : DState × String :=
       match fin with
       | none => (st, "bad-op")
       | some fin =>
+        let t := tag (cliArms s c fin)
         match s.chunk true c fin with
-        | (_, .panic) => (st, "panic")
-        | (s', .closed) => (.cli s', "err closed")
-        | (s', o) => (.cli s', showCOut o ++ " " ++ cliTail s')
+        | (_, .panic) => (st, "panic" ++ t)
+        | (s', .closed) => (.cli s', "err closed" ++ t)
+        | (s', o) => (.cli s', showCOut o ++ " " ++ cliTail s' ++ t)
     | _, _ => (st, "bad-op")
   | "reset" :: "conn" :: _ =>
     match SrvConn.dstep SrvConn.conn0 toks with
@@ -81,7 +161,7 @@ def dstep (st : DState) (toks : List String) : DState × String :=
   | ["reset", "val"] => (.idle, "ok")
   | ["validate", start, chan, l] =>
     match start.toNat?, chan.toNat?, parseCIList? l with
-    | some start, some chan, some cs => (st, showV (validateChunks start chan cs))
+    | some start, some chan, some cs => (st, showV (validateChunks start chan cs) ++ tag (validateArms start chan cs))
     | _, _, _ => (st, "bad-op")
   | ["setctr", a, b] =>
     match st, a.toNat?, b.toNat? with
@@ -90,10 +170,11 @@ def dstep (st : DState) (toks : List String) : DState × String :=
   | ["mwrite", req, nid, h] =>
     match st, req.toNat?, nid.toNat?, hexToBytes h with
     | .mw c cl s, some req, some nid, some msg =>
+      let t := tag (mwArms s nid msg)
       match s.write c cl req nid msg with
-      | .ok s' => (.mw c cl s', "ok")
-      | .err s' e => (.mw c cl s', s!"err {e}")
-      | .panic => (st, "panic")
+      | .ok s' => (.mw c cl s', "ok" ++ t)
+      | .err s' e => (.mw c cl s', s!"err {e}" ++ t)
+      | .panic => (st, "panic" ++ t)
     | _, _, _, _ => (st, "bad-op")
   | ["mtake"] =>
     match st with
